@@ -211,3 +211,32 @@ func TestTickerAndTimer(t *testing.T) {
 		t.Fatalf("timer fired at %d", fired)
 	}
 }
+
+func TestGoCallEvaluatesArgumentsAtTheGoStatement(t *testing.T) {
+	var got []int
+	var mu Mutex
+	add := func(v int, more ...int64) {
+		mu.Lock()
+		got = append(got, v+len(more))
+		mu.Unlock()
+	}
+	w := runWorld(5, Config{Policy: Fair, Quantum: 5}, func() {
+		for i := 0; i < 3; i++ {
+			x := i * 10
+			GoCall(-20, add, x, 7, 8) // untyped constants reach a variadic ...int64 parameter
+			x = 999                   // must not be seen by the new task
+			_ = x
+			Y(1)
+		}
+	})
+	if w.Stop != StopNone || len(got) != 3 {
+		t.Fatalf("stop=%d got=%v", w.Stop, got)
+	}
+	sum := 0
+	for _, v := range got {
+		sum += v
+	}
+	if sum != 0+10+20+3*2 {
+		t.Fatalf("got %v", got)
+	}
+}
